@@ -116,6 +116,26 @@ def tweak(rng, d):
     return d
 
 
+def layered_type(rng, u, depth):
+    """sometimes a chain of three schema annotations (aliases layered on aliases), flattened by typing into one Annotated"""
+    if rng.random() < 0.1:
+        base = rng.choice(["int", "float", "str", "list"])
+        if base in ("int", "float"):
+            layers = [{"min": 1}, {"max": 10}, {"mult_of": 2}]
+            t = (base,)
+        elif base == "str":
+            layers = [{"min_len": 1}, {"max_len": 3}, {"pattern": "a"}]
+            t = ("str",)
+        else:
+            layers = [{"min_items": 1}, {"max_items": 2}, {"unique": True}]
+            t = ("coll", "list", ("int",))
+        rng.shuffle(layers)
+        for c in layers:
+            t = ("con", c, t)
+        return t
+    return G.gen_type(rng, u, depth)
+
+
 def no_fallback_universe(rng):
     u = G.gen_universe(rng)
     for c in u["classes"]:
@@ -139,7 +159,7 @@ def run(tier):
     from apischema.json_schema import deserialization_schema
     n = dict(quick=(90, 6, 7), thorough=(900, 8, 10))[tier]
     opts_gen = lambda r: dict(G.gen_opts(r, coerce=False), fall_back_on_default=False, all_refs=r.random() < 0.4)
-    P = Producer(R, *n, depth=3, make_opts=opts_gen, make_data=make_data, roots=True, matrix=1,
+    P = Producer(R, *n, depth=3, make_opts=opts_gen, make_data=make_data, make_type=layered_type, roots=True, matrix=1,
                  make_universe=no_fallback_universe)
     schemas = {}          # key -> dict(idx, doc or None, coq)
     sdefs = []            # header definitions
